@@ -1102,6 +1102,20 @@ def run_cases(dud, driver, cases, with_model=True, jobs=None, keep=False):
     args = [(dud, driver, c, traces.get(c["id"]), opts) for c in cases]
     jobs = jobs or min(16, os.cpu_count() or 4)
     if jobs == 1 or len(args) <= 1:
-        return [run_case(a) for a in args], traces
-    with Pool(jobs) as pool:
-        return pool.map(run_case, args, chunksize=1), traces
+        runs = [run_case(a) for a in args]
+    else:
+        with Pool(jobs) as pool:
+            runs = pool.map(run_case, args, chunksize=1)
+    # a command that did not come back within its limit while 16 cases ran side by side (and whatever else loads the machine) is run
+    # again ALONE with five times the limit: only a command that does not come back then is reported as hanging
+    confirmed = False
+    for k, r in enumerate(runs):
+        if r.get("hang") and not confirmed:
+            c2 = dict(args[k][2], timeout=3 * args[k][2].get("timeout", 120))
+            r2 = run_case((args[k][0], args[k][1], c2, args[k][3], args[k][4]))
+            r2["case"] = args[k][2]
+            r2["retried_alone"] = True
+            runs[k] = r2
+            if r2.get("hang"):
+                confirmed = True          # it hangs on an idle machine too: the other cases that hung are not run again
+    return runs, traces
